@@ -181,6 +181,9 @@ def render_value(ctx, v, kind, tyname, out):
         if t is Opaque:
             fmt_push(out, ('opaque', v0))
             return
+        if t is Agg and v0.ty.endswith('Error') and v0.fields and type(v0.fields[0]) in (str, SymStr, FmtV):
+            fmt_push(out, v0.fields[0])         # third-party / io error values carry their message
+            return
         raise Unsupported('Display of %r' % (v0,))
     # debug and everything else
     if t is str and kind == 'debug':
